@@ -106,6 +106,26 @@ def ty(t):
     raise ValueError(f'T1: unsupported annotation {t!r}')
 
 
+def self_assignments(fn):
+    """{attr: [constants or 'expr']} for every `self.attr = ...` in the function (used for init=False fields
+    that __post_init__ / __init__ recomputes: the encode-side tables treat them as computed, not constant)"""
+    try:
+        src = textwrap.dedent(inspect.getsource(fn))
+    except (OSError, TypeError):
+        return {}
+    out = {}
+    for node in ast.walk(ast.parse(src)):
+        if isinstance(node, ast.Assign):
+            for t in node.targets:
+                if isinstance(t, ast.Attribute) and isinstance(t.value, ast.Name) and t.value.id == 'self':
+                    v = node.value
+                    if isinstance(v, ast.Constant) and (v.value is None or isinstance(v.value, int)):
+                        out.setdefault(t.attr, []).append(v.value)
+                    else:
+                        out.setdefault(t.attr, []).append('expr')
+    return out
+
+
 def class_kind(c):
     own = [m for m in CODEC_METHODS if m in vars(c)]
     if issubclass(c, ConstrainedBytes):
@@ -144,6 +164,18 @@ def describe(c):
                 custom[m] = digest(f)
                 break
     d['custom'] = custom
+    assigns = {}
+    for m in ('__post_init__', '__init__'):
+        for base in c.__mro__:
+            if base in (CBORSerializable, ArrayCBORSerializable, MapCBORSerializable, DictCBORSerializable,
+                        CodedSerializable, ConstrainedBytes, Key, object, enum.Enum, list, OrderedSet, NonEmptyOrderedSet):
+                break
+            if m in vars(base) and not (m == '__init__' and dataclasses.is_dataclass(base)
+                                        and getattr(vars(base)[m], '__qualname__', '').startswith('__create_fn__')):
+                for k, v in self_assignments(vars(base)[m]).items():
+                    assigns.setdefault(k, []).extend(v)
+                break
+    d['self_assign'] = assigns
     if dataclasses.is_dataclass(c):
         hints = typing.get_type_hints(c)
         fs = []
